@@ -152,6 +152,69 @@ func VerifC09Two(d Disk, n int) {
 	verifCover("c09/two")
 }
 
+// VerifC09History: k arbitrary operations (Read, ReadTo, Write, Barrier) at arbitrary in-range
+// addresses of a larger disk from the zero state, each compared with the register model; Mem and
+// File run the same script side by side (file == nil: Mem only). Catches state kept outside
+// the blocks (caches, batching, reused buffers) that the one-step harness cannot reach.
+func VerifC09History(d Disk, e Disk, n, k int) {
+	model := make([][]byte, n)
+	for i := range model {
+		model[i] = make([]byte, BlockSize)
+	}
+	var held []Block // results of earlier reads, with the contents they had
+	var heldWant [][]byte
+	for s := 0; s < k; s++ {
+		a := uint64(verifChoose(n))
+		switch verifChoose(4) {
+		case 0:
+			r := d.Read(a)
+			verifAssert("history/read", verifBytesEq(r, model[a]))
+			if e != nil {
+				verifAssert("history/read-second-disk", verifBytesEq(e.Read(a), model[a]))
+			}
+			held = append(held, r)
+			heldWant = append(heldWant, verifClone(r))
+		case 1:
+			buf := verifNondetBytes("dirty", int(BlockSize))
+			d.ReadTo(a, buf)
+			verifAssert("history/readto", verifBytesEq(buf, model[a]))
+			if e != nil {
+				buf2 := make([]byte, BlockSize)
+				e.ReadTo(a, buf2)
+				verifAssert("history/readto-second-disk", verifBytesEq(buf2, model[a]))
+			}
+		case 2:
+			v := verifNondetBytes("v", int(BlockSize))
+			model[a] = verifClone(v)
+			d.Write(a, v)
+			if e != nil {
+				e.Write(a, v)
+			}
+			v[0] ^= 0xff
+			v[BlockSize-1] ^= 0xff
+		case 3:
+			d.Barrier()
+			if e != nil {
+				e.Barrier()
+			}
+		}
+	}
+	for i := range held {
+		verifAssert("history/earlier-read-results-unchanged", verifBytesEq(held[i], heldWant[i]))
+	}
+	verifFrame(d, n, model, "history/frame")
+	if e != nil {
+		verifFrame(e, n, model, "history/frame-second-disk")
+	}
+	verifAssert("history/size", d.Size() == uint64(n))
+	verifCover("c09/history")
+}
+
+func verifC09MemHistory() {
+	n := 5 + 3*verifTier()
+	VerifC09History(NewMemDisk(uint64(n)), nil, n, 3)
+}
+
 func verifC09MemFresh()  { n := verifChoose(4); VerifC09Fresh(NewMemDisk(uint64(n)), n) }
 func verifC09MemStep()   { n := verifChoose(4); VerifC09Step(NewMemDisk(uint64(n)), n, false) }
 func verifC09MemGlobal() { n := 1 + verifChoose(2); VerifC09Step(NewMemDisk(uint64(n)), n, true) }
